@@ -313,3 +313,161 @@ func (o HOp) String() string {
 		return fmt.Sprintf("%s(cut %d)", o.Kind, o.Cut)
 	}
 }
+
+// ---------- further history families (each drawn from a generator of its own, so that adding one leaves the
+// histories of the basic modes what they were) ----------
+
+// genPending: 2-4 sessions waiting for their sshd logins AT THE SAME TIME, each holding its own number of events
+// (0-12; with big: up to 40 and around the sizes at which a Go slice grows) before its login arrives; the logins
+// arrive in any order.  Varied independently: the order in which the sessions are OPENED, which of them holds
+// many events, which login comes first, and whether the sessions fill up one after the other or in turns.  What one
+// session holds must never show up under another session's identity (C01), and every session's events come out
+// once, in order (C02) - whatever the neighbours hold.
+func genPending(r *hutil.Rand, big bool) History {
+	g := &genState{r: r, nextSid: 1 + r.Intn(50), nextPid: 100 + r.Intn(1000)}
+	h := History{Budget: -1, Plans: map[string]SessPlan{}, Mode: "pending"}
+	if big {
+		h.Mode = "pending-big"
+	}
+	type sess struct {
+		open  HOp
+		held  []HOp
+		login HOp
+		tail  []HOp
+	}
+	growth := []int{1, 2, 3, 4, 5, 7, 8, 9, 15, 16, 17, 31, 32, 33, 40}
+	k := 2 + r.Intn(3)
+	ss := make([]*sess, k)
+	for i := range ss {
+		sid := strconv.Itoa(g.nextSid)
+		g.nextSid += 1 + r.Intn(3)
+		pid := g.nextPid
+		g.nextPid += 1 + r.Intn(5)
+		n := 0
+		switch r.Intn(3) {
+		case 0:
+			n = r.Intn(4)
+		case 1:
+			n = 4 + r.Intn(9)
+		default:
+			n = 9 + r.Intn(4)
+			if big {
+				n = hutil.Pick(r, growth)
+				if r.Bool() {
+					n = 9 + r.Intn(32)
+				}
+			}
+		}
+		s := &sess{open: g.ev(sid, "LOGIN", strconv.Itoa(pid))}
+		for j := 0; j < n; j++ {
+			s.held = append(s.held, g.ev(sid, hutil.Pick(r, otherTypes), strconv.Itoa(pid+1000+r.Intn(50))))
+		}
+		s.login = g.login(pid, "")
+		for j := r.Intn(4); j > 0; j-- {
+			s.tail = append(s.tail, g.ev(sid, hutil.Pick(r, otherTypes), strconv.Itoa(pid+1000+r.Intn(50))))
+		}
+		if r.Bool() {
+			s.tail = append(s.tail, g.ev(sid, "CRED_DISP", strconv.Itoa(pid)))
+			if r.Chance(1, 4) {
+				s.tail = append(s.tail, g.ev(sid, hutil.Pick(r, otherTypes), strconv.Itoa(pid+1000)))
+			}
+		}
+		ss[i] = s
+		h.Plans[sid] = SessPlan{Sid: sid, PID: pid, HasLoginRec: true, LoginID: s.login.Login.ID, WF: true}
+	}
+	// the order in which the sessions are opened is independent of their ids, pids and sizes
+	for i := len(ss) - 1; i > 0; i-- {
+		j := r.Intn(i + 1)
+		ss[i], ss[j] = ss[j], ss[i]
+	}
+	bursts := func(scripts [][]HOp, maxBurst int) []HOp {
+		var out []HOp
+		idx := make([]int, len(scripts))
+		for {
+			var live []int
+			for i := range scripts {
+				if idx[i] < len(scripts[i]) {
+					live = append(live, i)
+				}
+			}
+			if len(live) == 0 {
+				return out
+			}
+			i := hutil.Pick(r, live)
+			for n := 1 + r.Intn(maxBurst); n > 0 && idx[i] < len(scripts[i]); n-- {
+				out = append(out, scripts[i][idx[i]])
+				idx[i]++
+			}
+		}
+	}
+	maxBurst := hutil.Pick(r, []int{1, 3, 12, 45})
+	var ops []HOp
+	switch r.Intn(3) {
+	case 0: // every session a script of its own, merged
+		var scripts [][]HOp
+		for _, s := range ss {
+			sc := append([]HOp{s.open}, s.held...)
+			sc = append(append(sc, s.login), s.tail...)
+			scripts = append(scripts, sc)
+		}
+		ops = bursts(scripts, maxBurst)
+	case 1: // all sessions opened first, then merged
+		var scripts [][]HOp
+		for _, s := range ss {
+			ops = append(ops, s.open)
+			sc := append(append([]HOp{}, s.held...), s.login)
+			scripts = append(scripts, append(sc, s.tail...))
+		}
+		ops = append(ops, bursts(scripts, maxBurst)...)
+	default: // all opened, then everything that is held, then the logins (in an order of their own) with the rest
+		var held, rest [][]HOp
+		for _, s := range ss {
+			ops = append(ops, s.open)
+			held = append(held, s.held)
+		}
+		ops = append(ops, bursts(held, maxBurst)...)
+		for _, i := range permOf(r, len(ss)) {
+			rest = append(rest, append([]HOp{ss[i].login}, ss[i].tail...))
+		}
+		if r.Bool() {
+			ops = append(ops, bursts(rest, 2)...)
+		} else {
+			for _, sc := range rest {
+				ops = append(ops, sc...)
+			}
+		}
+	}
+	if r.Chance(1, 3) {
+		// cleanup calls whose cut-off lies before everything: they discard nothing
+		for n := 1 + r.Intn(2); n > 0; n-- {
+			pos := r.Intn(len(ops) + 1)
+			c := HOp{Kind: hutil.Pick(r, []string{"clean_sess", "clean_sess", "clean_logins"}), Cut: 0}
+			ops = append(ops[:pos], append([]HOp{c}, ops[pos:]...)...)
+		}
+	}
+	for i := range ops {
+		if ops[i].Kind == "login" {
+			l := *ops[i].Login
+			l.AtIdx = i
+			if i > 0 && r.Chance(1, 3) {
+				l.AtIdx = r.Intn(i + 1)
+			}
+			ops[i].Login = &l
+		}
+	}
+	h.Ops = ops
+	h.Debug = r.Chance(1, 3)
+	return h
+}
+
+func permOf(r *hutil.Rand, n int) []int {
+	p := make([]int, n)
+	for i := range p {
+		p[i] = i
+	}
+	for i := n - 1; i > 0; i-- {
+		j := r.Intn(i + 1)
+		p[i], p[j] = p[j], p[i]
+	}
+	return p
+}
